@@ -212,6 +212,11 @@ def run_diff(case, res):
                 during = op.get("during") or []
 
                 def on_read(idx, base=base):
+                    if idx - base > 3000:
+                        # the query goes on reading report after report: it would never return
+                        from ..refterm import StreamExhausted
+
+                        raise StreamExhausted("get_cursor_vertical_diff keeps querying the cursor position (more than 3000 reads in one call)")
                     for ev in during:
                         if ev.get("done") or idx - base != ev["at"]:
                             continue
